@@ -149,8 +149,8 @@ theorem tokStep_regex {st st' : LexState} {t : Token} (h : TokStep st (some t) s
       have := (ha hb).2.2.1
       rw [hty] at this
       exact absurd this (by decide)
-  obtain ⟨hle, _, _, hlp, _, _, s, r, ⟨pre, post, m, _, hm, hn', _⟩, hrt⟩ := hn hauto
-  have hr : r = "REGEX" := ruleType_eq r _ "REGEX" (by decide) regex_not_kw (hrt ▸ hty)
+  obtain ⟨hle, _, _, hlp, _, _, s, r, ap, ⟨pre, post, m, _, hm, hn', _⟩, hrt⟩ := hn hauto
+  have hr : r = "REGEX" := ruleFn_eq ap r _ "REGEX" (by decide) regex_not_kw (hrt ▸ hty)
   subst hr
   have : m = regexLen := by
     have : ruleMatcher "REGEX" = some regexLen := by simp [ruleMatcher]
